@@ -10,7 +10,7 @@ SHIM = os.path.join(VERIF, 'shims', 'c13_prims.c')
 def main():
     chk = Check('C13')
     chk.timeout = 40 if chk.tier == 'quick' else 300
-    for fn in ('mjraw_PlaneSphere', 'mjraw_SphereSphere', 'c13_frame'):
+    for fn in ('mjraw_PlaneSphere', 'mjraw_SphereSphere', 'mjraw_SphereCapsule', 'c13_frame'):
         chk.unit('verif:shims/c13_prims.c', fn, prims.CONTRACTS, 'math', 'real', abspath=SHIM, check_arith=False)
     for fn in ('getMargin', 'getGap'):
         chk.unit('src/engine/engine_collision_driver.c', fn, prims.MARGIN_CONTRACTS, 'math', 'real')
@@ -18,7 +18,7 @@ def main():
     from vlib.cast import REPO
     for f in ('src/engine/engine_collision_primitive.c', 'src/engine/engine_util_spatial.c', 'src/engine/engine_util_blas.c'):
         chk.sources[f] = hashlib.sha256(open(os.path.join(REPO, f), 'rb').read()).hexdigest()
-    chk.out_of_reach += ['capsule / cylinder / box / ellipsoid colliders, mj_geomDistance, mj_setContact, convex (GJK/EPA) pairs']
+    chk.out_of_reach += ['capsule-capsule, plane-capsule / cylinder / box / ellipsoid colliders (sphere-capsule is under contract), mj_geomDistance, mj_setContact, convex (GJK/EPA) pairs']
     chk.assumptions |= {'machine doubles treated as mathematical reals', 'plane frame matrix has a unit third column',
                         'mju_makeFrame is proved for frames built from the normal alone (tangent of squared length < 0.25, as every '
                         'primitive collider leaves it); the supplied-tangent path is not claimed'}
